@@ -154,6 +154,23 @@ def _crate_text(pairs):
 
 def run(report, tier, label, ncrates=16):
     pairs = probe_pairs(tier)
+    # the verdict depends only on the sources and on the probe set: cache it per source hash
+    cpath = os.path.join(C.hash_dir(), "T.%s.json" % tier)
+    with open(os.path.abspath(__file__), "rb") as fh:
+        import hashlib
+        stamp = C.text_hash(C.source_hash(), hashlib.sha256(fh.read()).hexdigest(), str(len(pairs)))
+    if C.stamp_ok(cpath, stamp):
+        cached = C.load_json(cpath)
+        failing = [tuple(x) for x in cached["failing"]]
+        n = cached["crates"]
+        return _report(report, label, tier, pairs, failing, n)
+    failing, n = _probe(pairs, ncrates)
+    C.save_json(cpath, {"failing": failing, "crates": n}, indent=None)
+    C.write_stamp(cpath, stamp)
+    return _report(report, label, tier, pairs, failing, n)
+
+
+def _probe(pairs, ncrates):
     ws = os.path.join(C.WORK, "ws", "probe")
     cdir = os.path.join(ws, "crates")
     with C.Lock("build-probe"):
@@ -214,9 +231,14 @@ def run(report, tier, label, ncrates=16):
                 break
         if not hit and "aborting due to" not in m.get("message", ""):
             other_errors.append(m.get("message", "")[:200])
+    failing = [list(x) for x in failing]
     if p.returncode != 0 and not failing:
         from .run_a import EngineError
         raise EngineError("probe crates failed to build for a reason other than a probe: %s" % (other_errors[:3] or p.stderr[-500:]))
+    return failing, n
+
+
+def _report(report, label, tier, pairs, failing, n):
     seen = set()
     for (tr, s, d) in failing:
         if (tr, s, d) in seen:
